@@ -126,6 +126,10 @@ class EngineWorld:
         from .libmodels import LockModel
         return SObj(LockModel, {})
 
+    def new_queue(self, items=()):
+        from .libmodels import QueueModel
+        return SObj(QueueModel, {"items": I.SList(list(items))})
+
     def plist(self, name, maxn=3, elem=None):
         """an arbitrary list (history abstraction): unknown prefix in the proof world, 0..maxn concrete
         elements (callbacks unless `elem(i)` builds something else) in the concrete worlds"""
@@ -336,6 +340,13 @@ class NativeWorld:
     def new_lock(self):
         import threading
         return threading.Lock()
+
+    def new_queue(self, items=()):
+        import queue
+        q = queue.Queue()
+        for x in items:
+            q.put(x)
+        return q
 
     def plist(self, name, maxn=3, elem=None):
         n = self.int(name + ".len", 0, maxn)
